@@ -300,6 +300,13 @@ def check(case):
         Q = P
         for s in case['lifts']:
             Q = lift(Q, s['name'], s['pos'], s['faces'], s['periodic'], s['Dnew'], s['unew'])
+        # the lifted problem has its own conditioning (the coefficient along the new axis may span many decades)
+        condq = problem.step_condition(Q)
+        if not condq < 1e8:
+            res.discarded = True
+            res.discard_reason = 'ill-conditioned'
+            return res
+        TOLC = max(TOLC, 1e-12 * condq)
         got = _run(Q)
         dq = dims_of(Q['faces'])
         innq = tuple(slice(1, -1) for _ in dq)
